@@ -10,6 +10,9 @@ TRUSTED_BASE = [
     "modelled not verified: Go stdlib (strings, strconv.ParseInt, regexp as used, net.ParseIP, fmt), net/http request parsing, encoding/xml, goskiplist, bbolt, afero, sync primitives",
 ]
 
+NOT_APPLICABLE = []
+HOOK_COMMITS = []
+
 PROPS = {
     "C11": {
         "title": "Range reads return exactly the requested bytes or InvalidRange",
@@ -25,5 +28,20 @@ PROPS = {
                        "Content-Range, Content-Length and body are compared; the extracted spec is evaluated on the "
                        "implementation's output as the failing-input search.",
         "assumptions": ["object sizes below 2^63", "headers as net/http hands them to the handler (no transport trimming)"],
+    },
+    "C17": {
+        "title": "Bucket names are accepted exactly when they satisfy the documented S3 rules",
+        "harness": "c17",
+        "model": "Model/BucketName.v validate (regexp matcher, net.ParseIP dotted-quad branch, per-label regexp) and create_bucket",
+        "rule": "ValidateBucketName called directly on every string of length <= 5 (quick) / 6 (thorough) over {a,z,0,9,-,.,A,_}, on "
+                "lengths 1..70 of valid characters, IPv4/IPv6-looking names and seeded random strings; PUT /<name> through the "
+                "HTTP API on memory, bolt and multi-bucket fs (MemMapFs and real directory) for all strings up to length 4/3/3/2 "
+                "(quick) plus the special and random names and duplicates, with ListBuckets compared to the set of accepted names "
+                "every 500 requests. distinct_nontrivial = distinct accepted names (direct) + distinct (backend, name) created.",
+        "explanation": "Theorem: the modelled validator equals the documented rule on every byte string of any length (no bound); "
+                       "create succeeds iff valid and absent, a refusal creates nothing. Tie: the real ValidateBucketName and the "
+                       "real create-bucket handlers are run on the same names as the extracted validator/spec and compared "
+                       "(decision, status, S3 code, bucket listing).",
+        "assumptions": ["'formatted as an IP address' is read as 'parses under Go net.ParseIP' (the documented mechanism)"],
     },
 }
